@@ -42,7 +42,7 @@ private def killingPod : PodObj :=
              phase := .running, retryIndex := some 0 },
     ownerUid := some "u", ownerName := some "job", jobLabel := some "u" }
 
-private def taskOf (p : PodObj) : Task := (podTask p).getD default
+private def taskOf (p : PodObj) : Task := (podTask 0 p).getD default
 
 /-- started Job with one recorded task and the given kill timestamp -/
 private def jobWithKill (k : Option Time) : Job :=
@@ -311,7 +311,7 @@ theorem no_create_after_kill_set (s : Sys) (jo : JobObj) (rj : Job) (tasks : Lis
     (h : rj.killTimestamp.isSome = true ∨ rj.admissionError = true) :
     syncCreateTasks s jo rj tasks = (s, some (rj, adoptUnrecordedTasks s jo tasks)) ∧
     (∀ t, t ∈ adoptUnrecordedTasks s jo tasks ↔
-      t ∈ tasks ∨ ∃ p ∈ s.podCache, podTask p = some t ∧ p.jobLabel = some jo.uid ∧ p.ownerUid = some jo.uid ∧
+      t ∈ tasks ∨ ∃ p ∈ s.podCache, podTask s.clock p = some t ∧ p.jobLabel = some jo.uid ∧ p.ownerUid = some jo.uid ∧
         (∀ t0 ∈ tasks, t0.name ≠ p.pod.name) ∧ (∀ r ∈ jo.job.status.tasks, r.name ≠ p.pod.name)) := by
   have hcan : canCreateTask rj = false := by
     unfold canCreateTask
